@@ -42,7 +42,8 @@ struct Exec {
     bool resumableSession = false;   // model: the last established session can be resumed
     bool verbose = false;
     bool redirected = false;   // the last attempt ended with a redirect: the next TCP connection was opened by the client itself
-    bool redirectGivenUp = false;   // ... or the client did not follow it and is disconnected
+    bool redirectGivenUp = false;
+    int stateReportsBase = 0;   // stateChanged(ConnectedState) emissions before the TCP connection of the current attempt was opened   // ... or the client did not follow it and is disconnected
     QStringList trace;
 
     explicit Exec(int worker) : rig(worker) { }
@@ -58,6 +59,11 @@ struct Exec {
         *resumed = false;
         // headerOwed: the client has opened a stream that the server has not answered yet (a stream error needs the header first)
         auto cutHere = [&](int point, bool negotiationComplete = false, bool headerOwed = false) {
+            if (!negotiationComplete && point != AfterEstablished && rig.connectedStateReports != stateReportsBase) {
+                problem(QStringLiteral("session-reported-before-negotiation-finished"),
+                        QStringLiteral("attempt %1: stateChanged(ConnectedState) was emitted %2 time(s) before the negotiation reached '%3'").arg(attemptNo).arg(rig.connectedStateReports - stateReportsBase).arg(QString::fromLatin1(cutNames[point])));
+                stateReportsBase = rig.connectedStateReports;
+            }
             if (a.cut == point) {
                 if (negotiationComplete) {
                     *established = true;   // the last negotiation element was delivered: a session may be reported
@@ -65,6 +71,7 @@ struct Exec {
                 trace << QStringLiteral("cut %1").arg(QString::fromLatin1(cutNames[point]));
                 if (a.redirect) {
                     const int before = rig.server.acceptedCount();
+                    stateReportsBase = rig.connectedStateReports;
                     rig.server.write((headerOwed ? serverHeader() : QByteArray()) + "<stream:error><see-other-host xmlns='urn:ietf:params:xml:ns:xmpp-streams'>" + rig.server.host().toUtf8() + ":" + QByteArray::number(rig.server.port()) +
                                      "</see-other-host></stream:error>" + (a.redirect == 2 ? "</stream:stream>" : ""));
                     // either the client follows the redirect (a new TCP connection that stays open) or it gives up and is disconnected
@@ -327,6 +334,9 @@ bool runCase(EnumCtx &ctx, const std::vector<Attempt> &as)
     bool exists = true;
     for (size_t i = 0; i < as.size(); ++i) {
         const int connectedBefore = x.rig.connectedSignals;
+        if (!x.redirected) {
+            x.stateReportsBase = x.rig.connectedStateReports;
+        }
         const bool ok = i == 0 ? x.rig.connectClient(x.rig.baseConfig()) : (x.redirected ? true : x.rig.reconnectClient());
         x.redirected = false;
         if (!ok) {
